@@ -234,7 +234,7 @@ def fill_errvals(prog, errs):
 def run(ctx):
     from props.C11 import run_cases, _run_chunk
     quick = ctx.quick
-    ctx.cov['rule'] = ('legal programs (theorem gen_legal) of the extracted generator: 8 literal geometries from a table of 63 WKT literals (56 pathological ones, 3 dense ones: a 64-vertex ring, 48 tiny lines, a 96-vertex zigzag; and 4 garbage words of 900, 1100, 5000 and 70000 characters whose error text quotes them) (empties at any level, '
+    ctx.cov['rule'] = ('legal programs (theorem gen_legal) of the extracted generator: 8 literal geometries from a table of 63 WKT literals (56 pathological ones, 3 dense ones: a 64-vertex ring, 24 tiny lines, a 24-vertex zigzag (kept that small because buffering n noded parts with 100 quadrant segments costs about n^2: 95 parts take 20 to 96 s on the release build); and 4 garbage words of 900, 1100, 5000 and 70000 characters whose error text quotes them) (empties at any level, '
                        'NaN/Inf/1e300 ordinates, invalid topology, zero-length and single-point components, curved types, Z/M), then up to 40 calls over the 178 modelled entry points (190 rows: the array constructors have one row per array length; the 3 interrupt functions included) with '
                        'arguments from the pool and numeric parameters from boundary tables (NaN, +-Inf, +-0, negative, 1e300, DBL_MAX, INT_MAX/MIN, UINT_MAX, out-of-range indices and enum codes); '
                        'distinct by program text; non-trivial = at least one call beyond the literals returned an error value and at least one object was destroyed or consumed')
